@@ -24,6 +24,14 @@ NOT_APPLICABLE = {
 
 # id -> (technique, level text, level note, design ref)
 CLAIMS = {
+    'C30': ('import/name resolution in the repository environment, resource existence and packaging-manifest match, '
+            'format-template layout vs lexical extraction of the Perl reader, Makefile rule <-> addfile pairing, naming predicates',
+            'Static, exhaustive over automator.py, trans.pl and MANIFEST.in: decides that the module imports, that bundled '
+            'resources exist and are packaged, that map2string writes the layout trans.pl reads, that every Makefile '
+            'dependency is written in the same block in the argument order trans.pl expects, that POS/POSCAR naming '
+            'complements the rule predicate, that prefixes are disjoint and the tag map inverts the directory map. The '
+            'archive contents for a given dictionary are an execution and not decided.',
+            'trusts CPython ast; the Perl side is a lexical extraction of $trans[k] (stated as textual)', 'DESIGN.md §4 C30'),
     'C32': ('sibling comparison of canonicalised guard blocks, alpha-insensitive patterns for site lookup and interaction '
             'bookkeeping',
             'Static, exhaustive over the three ClusterSupercell evaluators and the sampler energy: decides that they share the '
